@@ -85,6 +85,34 @@ func (g *Gen) heightNear(s Snap) uint64 {
 func (g *Gen) next(s Snap, remaining int) Op {
 	o := g.next0(s, remaining)
 	r := g.r
+	// uneven vote schedule (divergent report + slow oracle) around an execution / result event followed by an event
+	// past the time-out: the first event must still be applied first
+	pct := 10
+	if g.prop == "C06" {
+		pct = 30
+	}
+	if remaining > 2 && len(g.motif) == 0 && o.H > 0 && o.Dissent == 0 && r.Chance(pct) {
+		var t uint64
+		switch o.Kind {
+		case "BatchExecuted":
+			for _, b := range s.Batches {
+				if b.Nonce == o.Nonce && b.Token == o.Token {
+					t = b.Timeout
+				}
+			}
+		case "ObserveResult":
+			for _, c := range s.Calls {
+				if c.Nonce == o.Nonce {
+					t = c.Timeout
+				}
+			}
+		}
+		if t > 1 && t-1 >= s.Ext && t-1 >= g.maxH {
+			o.H = t - 1
+			o.Dissent, o.DissentBy = t+uint64(r.Intn(3)), 1
+			return Op{Kind: "Race", Sub: []Op{o, {Kind: "Observe", H: t + uint64(r.Intn(3))}}}
+		}
+	}
 	if (o.Kind == "Observe" && r.Chance(25)) || ((o.Kind == "ObserveResult" || o.Kind == "BatchExecuted") && r.Chance(10)) {
 		if o.H > 0 && !(remaining == 1 && g.endBad) {
 			d := g.heightNear(s)
